@@ -494,12 +494,19 @@ def gen_items(rng, kind):
         pool = list(range(0, 12)) + [255] if tw == 1 else list(range(0, 10)) + [255, 256, 65535, 32768]
         rng.shuffle(pool)
         tags = sorted(pool[:n])
+    elif kind == "opt":
+        # the assigned EDNS option codes (0..20 and a few above), the experimental range, and boundary integers
+        tags = [rng.choice(list(range(0, 21)) + [26946, 65001, 65534, 65535]) if rng.chance(3, 4) else gen_int(rng, tw) for _ in range(n)]
     else:
         tags = [gen_int(rng, tw) if tw else 0 for _ in range(n)]
     out = []
     for t in tags:
         if kind == "win":
             b = rng.bytes(1 + rng.below(32)) if rng.chance(9, 10) else b""
+            if b and rng.chance(1, 4):
+                # a bitmap that is not in canonical form: trailing zero octets (accepted by parsers, legal to build)
+                z = 1 + rng.below(3)
+                b = (b[:max(1, len(b) - z)] + b"\x00" * z)[:32]
         elif kind == "cstr":
             b = gen_cstr(rng)
         else:
